@@ -13,6 +13,7 @@ static std::vector<Op> alphabet(size_t size) {
     for (size_t n : {(size_t)SIZE_MAX, (size_t)SIZE_MAX - 1, (size_t)1 << 63}) { a.push_back({CONSUME, n}); a.push_back({ATMOST, n}); }
     a.push_back({REWIND, 0}); a.push_back({RESET, 0}); a.push_back({CLEAR, 0}); a.push_back({REPEAT, 0}); a.push_back({QUERY, 0});
     for (size_t v = 0; v < 5; v++) a.push_back({SETBAD, v});
+    for (size_t v : {2u, 3u, 4u, 5u}) a.push_back({SELFADD, v});   // one or two octets from the unread region's start / the memory's start
     return a;
 }
 
@@ -79,7 +80,7 @@ static void run() {
     auto &a = vp::args();
     size_t maxsize = a.thorough() ? 5 : 4;
     g_maxdepth = a.thorough() ? 5 : 4;
-    vp::stats().rule = vp::fmt("enum: every op sequence of length <= %zu over add/consume/consume_at_most (operand 0..size+1; consume/at-most also with lengths at the top of size_t), rewind, reset, clear, repeat, query, refused set-up calls on the buffer in use (5 kinds of invalid arguments) "
+    vp::stats().rule = vp::fmt("enum: every op sequence of length <= %zu over add/consume/consume_at_most (operand 0..size+1; consume/at-most also with lengths at the top of size_t), rewind, reset, clear, repeat, query, refused set-up calls on the buffer in use (5 kinds of invalid arguments), adds whose source lies in the buffer's own memory "
                                "from every valid (size<=%zu, used, offset) initial state; every set/use/space argument combination",
                                g_maxdepth, maxsize);
     vp::stats().exhaustive = true;
